@@ -75,6 +75,31 @@ fn hex(s: &str) -> String {
     out
 }
 
+fn unhex_bytes(s: &str) -> Option<Vec<u8>> {
+    if s == "-" {
+        return Some(Vec::new());
+    }
+    if s.len() % 2 != 0 {
+        return None;
+    }
+    let mut bytes = Vec::with_capacity(s.len() / 2);
+    for i in (0..s.len()).step_by(2) {
+        bytes.push(u8::from_str_radix(s.get(i..i + 2)?, 16).ok()?);
+    }
+    Some(bytes)
+}
+
+fn hex_bytes(bytes: &[u8]) -> String {
+    if bytes.is_empty() {
+        return "-".to_string();
+    }
+    let mut out = String::with_capacity(bytes.len() * 2);
+    for b in bytes {
+        out.push_str(&format!("{b:02x}"));
+    }
+    out
+}
+
 fn unhex_list(s: &str) -> Option<Vec<String>> {
     if s == "-" {
         Some(vec![])
@@ -312,6 +337,59 @@ fn eval(fields: &[&str]) -> Option<String> {
                 .join(",")
         }
         "lowerstr" => hex(&unhex(fields.get(1)?)?.to_lowercase()),
+        "splitpatch" => {
+            match crate::cmd::import::verif_split_patch(unhex_bytes(fields.get(1)?)?) {
+                Some((message, diff)) => format!("{} {}", hex_bytes(&message), hex_bytes(&diff)),
+                None => "err".to_string(),
+            }
+        }
+        "parsemsg" => {
+            match crate::cmd::import::verif_parse_message(&unhex_bytes(fields.get(1)?)?) {
+                Some((headers, body)) => {
+                    let mut out = String::from("ok");
+                    for h in headers.iter() {
+                        out.push(' ');
+                        match h {
+                            Some(v) if v.is_empty() => out.push_str("e"),
+                            Some(v) => out.push_str(&hex(v)),
+                            None => out.push('_'),
+                        }
+                    }
+                    out.push(' ');
+                    out.push_str(&hex_bytes(&body));
+                    out
+                }
+                None => "err".to_string(),
+            }
+        }
+        "nameemail" => {
+            match crate::patch::edit::parse_name_email(&unhex(fields.get(1)?)?) {
+                Ok((name, email)) => format!(
+                    "ok {} {}",
+                    if name.is_empty() { "e".to_string() } else { hex(name) },
+                    if email.is_empty() { "e".to_string() } else { hex(email) }
+                ),
+                Err(_) => "err".to_string(),
+            }
+        }
+        "specialize" => {
+            // specialize <template> <key=value,...>: keys and values are hex.
+            let template = unhex(fields.get(1)?)?;
+            let mut keys: Vec<(String, Vec<u8>)> = Vec::new();
+            let spec = fields.get(2)?;
+            if *spec != "-" {
+                for item in spec.split(',') {
+                    let (k, v) = item.split_once('=')?;
+                    keys.push((unhex(k)?, unhex_bytes(v)?));
+                }
+            }
+            let mut replacements: std::collections::HashMap<&str, std::borrow::Cow<'_, bstr::BStr>> =
+                std::collections::HashMap::new();
+            for (k, v) in keys.iter() {
+                replacements.insert(k.as_str(), std::borrow::Cow::Borrowed(v.as_slice().into()));
+            }
+            hex_bytes(&crate::templates::specialize_template(&template, &replacements))
+        }
         _ => return None,
     })
 }
